@@ -361,17 +361,43 @@ def _build_cp_atom_payload(sequence, restrict, payload_form=False, interner=None
             return ()
         return (f(i[0].key, i[0].neg, i[0].pos),)
 
-    i = reversed(i)
+    def is_wildcard(flag):
+        return flag == "*" or flag.endswith("_*")
 
-    for data in i:
+    # prefixes wiped by a later -PREFIX_* that applies to everything; whatever
+    # an earlier entry says about such flags never survives.
+    dead = ()
+
+    for data in reversed(i):
+        neg, pos = data.neg, data.pos
+        if dead:
+            neg = tuple(x for x in neg if not x.startswith(dead))
+            pos = tuple(x for x in pos if not x.startswith(dead))
         if data.key == packages.AlwaysTrue or getattr(data.key, "is_simple", False):
-            for n in data.neg:
+            for n in neg:
                 ldefault(n, False)
-            for p in data.pos:
+            for p in pos:
                 ldefault(p, True)
+            if "*" in neg:
+                # -*: nothing set by an earlier entry survives.
+                break
+            # the same notion of prefix that incremental_chunked applies
+            dead += tuple(x[:-2] for x in neg if x.endswith("_*"))
             continue
-        neg = tuple(x for x in data.neg if x not in locked)
-        pos = tuple(x for x in data.pos if x not in locked)
+        wild = tuple(x for x in neg if is_wildcard(x))
+        neg = tuple(x for x in neg if x not in locked or is_wildcard(x))
+        if wild:
+            # this entry ends up behind the collapsed global one, so it has to
+            # restore what later global entries enabled and it would now wipe.
+            if "*" in wild:
+                again = (k for k, v in locked.items() if v)
+            else:
+                prefixes = tuple(x[:-2] for x in wild)
+                again = (k for k, v in locked.items() if v and k.startswith(prefixes))
+            pos = tuple(x for x in pos if locked.get(x, True))
+            pos += tuple(k for k in again if k not in pos)
+        else:
+            pos = tuple(x for x in pos if x not in locked)
         if neg or pos:
             l.append((data.key, neg, pos))
 
@@ -398,9 +424,10 @@ def _build_cp_atom_payload(sequence, restrict, payload_form=False, interner=None
     lget = locked.get
 
     for key, neg, pos in reversed(l):
-        # only grab the deltas; if a + becomes a specific -
-        neg = tuple(x for x in neg if lget(x, True))
-        pos = tuple(x for x in pos if not lget(x, False))
+        if not any(map(is_wildcard, neg)):
+            # only grab the deltas; if a + becomes a specific -
+            neg = tuple(x for x in neg if lget(x, True))
+            pos = tuple(x for x in pos if not lget(x, False))
         if neg or pos:
             new_l.append(f(key, neg, pos))
 
